@@ -145,6 +145,23 @@ def check_addressing(ctx, ss, case, phase, prev=None):
                 flat = list(iv)
             tgt = var.model
             tgroup = ss.models[tgt].group if tgt in ss.models else tgt
+            if type(var.indexer).__name__ == 'IdxRepeat':
+                # the indexer is itself derived (own idx repeated once per referring device): recompute it from the
+                # index fields of the referring devices
+                br = var.indexer.ref
+                want = []
+                for d, didx in enumerate(mdl.idx.v):
+                    cnt = 0
+                    for m2 in ss.models.values():
+                        if m2.n == 0 or m2.group != br.name:
+                            continue
+                        for ip in m2.idx_params.values():
+                            if ip.model in (mdl.class_name, mdl.group):
+                                cnt += sum(1 for x in ip.v if _k(x) == _k(didx))
+                    want.extend([didx] * cnt)
+                if [_k(x) for x in want] != [_k(x) for x in flat]:
+                    ctx.fail('derived_indexer_wrong', dict(case=case, model=mname, var=vname, indexer=[repr(x) for x in flat][:12],
+                                                           expected=[repr(x) for x in want][:12]), sig=sig)
             if len(flat) != len(var.a):
                 ctx.fail('external_link_length', dict(case=case, model=mname, var=vname, n_index=len(flat), n_addr=len(var.a)), sig=sig)
             for k, ref in enumerate(flat):
@@ -267,6 +284,16 @@ def run_case(ctx, case):
                 key = case['perm_key']
                 perm = sorted(range(n), key=lambda i: ((i * 7919 + key * 104729) % (n + 3), i))
             order[name] = perm
+        if case.get('extra_unreferenced'):
+            # a device nobody refers to, stored in front of the referenced ones (reverse links must skip it correctly)
+            for name in ('COI', 'Area'):
+                if name in rows and rows[name]:
+                    extra = dict(rows[name][0])
+                    extra['idx'] = 'UNREF_%s' % name
+                    extra['name'] = 'unreferenced'
+                    rows[name] = [extra] + rows[name]
+                    order[name] = [0] + [k + 1 for k in order[name]]
+                    ctx.count('extra_unreferenced:' + name)
         morder = list(rows)
         if case['permute'] and case['perm_key'] % 2:
             # Bus and other referenced models may come later: add() does not need the targets to exist
@@ -343,7 +370,7 @@ def cases(draw, paths):
     coll = draw(st.lists(st.sampled_from(['GENROU', 'PQ', 'Line', 'EXDC2', 'TGOV1', 'PV', 'GENCLS', 'Shunt']), max_size=2, unique=True))
     return dict(source='stock', path=draw(st.sampled_from(paths)), rename=draw(st.sampled_from(['keep', 'flip', 'flip'])),
                 permute=draw(st.booleans()), perm_key=draw(st.integers(0, 50)),
-                collate=coll if draw(st.integers(0, 3)) == 0 else [])
+                collate=coll if draw(st.integers(0, 3)) == 0 else [], extra_unreferenced=draw(st.booleans()))
 
 
 def camp_addr(ctx):
@@ -358,6 +385,15 @@ def camp_addr(ctx):
             if case['collate']:
                 ctx.count('collate:on')
         run_case(ctx, case)
+    if ctx.shard == 0:
+        # anchor: reverse links (COI <- generators) with an unreferenced device stored first
+        for pth in ('kundur/kundur_coi.xlsx', 'kundur/kundur_coi.json'):
+            if os.path.isfile(os.path.join(build.cases_root(), pth)):
+                case = dict(source='stock', path=pth, rename='keep', permute=False, perm_key=0, collate=[], extra_unreferenced=True)
+                ctx.current_case = case
+                ctx.count('anchor:unreferenced_first')
+                body(case)
+                break
     drive(ctx, cases(paths), body, 8 if quick else 120, name='addr', chunk=8, shrink=False,
           budget_s=150 if quick else 1500)
 
